@@ -48,12 +48,16 @@ def judge_solves(r, tree=False):
 
 def _limits(entry, nb):
     """per-bond limits of one procedure entry (bond k lies to the left of site k; nb = number of sites + 1)"""
-    return [int(x) for x in entry["max_dims"]] if isinstance(entry, dict) else [int(entry)] * nb
+    if isinstance(entry, dict):
+        return [int(x) for x in entry["max_dims"]] if "max_dims" in entry else [int(entry["m"])] * nb
+    return [int(entry)] * nb
 
 
 def _big(entry, hilbert):
     """no selection at all can drop weight: every limit is at least the dimension of the whole space"""
-    return (not isinstance(entry, dict)) and entry >= hilbert
+    if isinstance(entry, dict):
+        return "max_dims" not in entry and entry["m"] >= hilbert
+    return entry >= hilbert
 
 
 def _roots(e):
@@ -148,7 +152,7 @@ def judge_chain(case, r):
     if pd and nexec >= 2:
         for j, f in enumerate(fins):
             bd = f.get("bond_dims")
-            if f.get("error") or not bd or len(bd) != len(pd) + 1 or case.get("ofs"):
+            if f.get("error") or not bd or len(bd) != len(pd) + 1 or case.get("ofs") or "order_after" in r:
                 continue
             over = [(k, bd[k], max(lims[-1][k], lims[-2][k])) for k in range(1, len(pd)) if bd[k] > max(lims[-1][k], lims[-2][k])]
             if over:
@@ -180,6 +184,10 @@ def judge_chain(case, r):
             bad.append(("returned-state", {"root": 0, "what": "bond limit restored to the exact ranks: the returned state's <H> must equal the exact eigenvalue and the last reported energy",
                                            "state": f["dense_energy"], "exact": exact[0], "reported_per_sweep": [(_roots(x)[0]) for x in r["macro"]],
                                            "bond_dims": f.get("bond_dims"), "procedure": case["procedure"][:nexec]}))
+    # on-the-fly swapping: the input state / operator objects must agree on the site order after the run
+    if r.get("input_consistency_err", 0.0) > 1e-9:
+        bad.append(("ofs-order", {"what": "after the run the input MPO (swapped in place) is not the operator in the site order the input state carries",
+                                  "err": r.get("input_consistency_err"), "order_after": r.get("order_after"), "tb": r.get("input_consistency_tb")}))
     # converged at full bond dimension: last reported energies == exact == energy of the returned states
     if first_full is not None and per_sweep:
         sweep_of_full = 0
